@@ -66,7 +66,7 @@ impl Stats {
 #[derive(Clone)]
 pub struct Finding {
   pub kind: String,            // "divergence" | "property" | "impl-panic"
-  pub properties: Vec<String>, // for "property": e.g. ["C19"] or ["C08:D6"]
+  pub properties: Vec<String>, // for "property": e.g. ["C19"] or ["C08:i"]
   pub source: String,
   pub layout: Layout,
   pub history: Vec<Event>,
@@ -183,8 +183,8 @@ pub fn explore(lean: &mut Lean, source: &str, layout: &Layout, alphabet: &[KeyCo
     }
   };
 
-  // the layouts people actually use (built-in, README, the repository's unit tests) must be inside the scope of the
-  // partial theorem of C08 (H1 and H2): the claim "all built-in, README and unit-test layouts satisfy H1 and H2" is checked
+  // the layouts people actually use (built-in, README, the repository's unit tests) must satisfy H1 and H2 (once the scope of the
+  // partial theorem of C08; since the fixes of D7 / D6 the scope where those fixes change nothing): the claim "all built-in, README and unit-test layouts satisfy H1 and H2" is checked
   // here on every run instead of being asserted
   if source.starts_with("builtin:") || source.starts_with("readme:") || source.starts_with("corpus:kt_") {
     stats.h12_layouts += 1;
